@@ -266,3 +266,34 @@ Example ex8_sound : check_sound ex8_flat = true. Proof. vm_compute. reflexivity.
 Example ex8_inj : check_inj ex8_flat = true. Proof. vm_compute. reflexivity. Qed.
 Example ex8_complete : check_complete ex8_flat = true. Proof. vm_compute. reflexivity. Qed.
 Example ex8_acount : check_accepted_count ex8_flat = true. Proof. vm_compute. reflexivity. Qed.
+
+(** A design of fragment F2 with a derived factor of [act_design] outside the sampled crossing:
+    CrossBlock([color, word, congruent], [color, word], [AtMostKInARow(1, congruent = con)]).  RandomGen permutes the 4
+    (color, word) combinations; the congruent row is filled in afterwards ([fill_in_nonpreamble_uncrossed_derived]) and the
+    constraint on it is enforced by rejection: 24 keys, 12 accepted = 12 valid sequences. *)
+Open Scope string_scope.
+Definition ex9_flat : flat :=
+{| fl_design := [{| ff_name := "color"; ff_hidden := false; ff_levels := [{| lv_name := "red"; lv_weight := 1; lv_accepts := [] |}; {| lv_name := "blue"; lv_weight := 1; lv_accepts := [] |}]; ff_window := None; ff_complex := false |};
+      {| ff_name := "word"; ff_hidden := false; ff_levels := [{| lv_name := "red"; lv_weight := 1; lv_accepts := [] |}; {| lv_name := "blue"; lv_weight := 1; lv_accepts := [] |}]; ff_window := None; ff_complex := false |};
+      {| ff_name := "congruent"; ff_hidden := false; ff_levels := [{| lv_name := "con"; lv_weight := 1; lv_accepts := [[[Some 0]; [Some 0]]; [[Some 1]; [Some 1]]] |}; {| lv_name := "inc"; lv_weight := 1; lv_accepts := [[[Some 0]; [Some 1]]; [[Some 1]; [Some 0]]] |}]; ff_window := Some {| win_deps := [0; 1]; win_width := 1; win_stride := 1; win_start := 0; win_start_delta := (0)%Z |}; ff_complex := false |}];
+   fl_act := [0; 1; 2]; fl_crossings := [[0; 1]]; fl_sustains := [1]; fl_weights := [1]; fl_sizes := [4];
+   fl_preambles := [0]; fl_alignment := EqualPreamble; fl_alignment_preamble := 0; fl_min_trials := 0; fl_trials := 4;
+   fl_rcc := true; fl_exclude := []; fl_excluded_derived := [];
+   fl_constraints := [(FCross);
+      (FConsistency);
+      (FAtMost 1 2 0 (Some {| g_trials := 4; g_preamble := 0; g_sustain := [(0, 1); (1, 1)] |}));
+      (FDerivation 4 [[DIdx 0; DIdx 2]; [DIdx 1; DIdx 3]] 2);
+      (FDerivation 5 [[DIdx 0; DIdx 3]; [DIdx 1; DIdx 2]] 2)];
+   fl_errors_fail := false |}.
+Close Scope string_scope.
+
+Example ex9_frag2 : frag2 ex9_flat = true. Proof. vm_compute. reflexivity. Qed.
+Example ex9_derived : has_derived ex9_flat = true. Proof. vm_compute. reflexivity. Qed.
+Example ex9_enum : enumerates_b ex9_flat = true. Proof. vm_compute. reflexivity. Qed.
+Example ex9_nkeys : List.length (keys_of ex9_flat) = 24. Proof. vm_compute. reflexivity. Qed.
+Example ex9_nacc : List.length (accepted_keys ex9_flat) = 12. Proof. vm_compute. reflexivity. Qed.
+Example ex9_nvalid : List.length (all_valid (code_sem ex9_flat)) = 12. Proof. vm_compute. reflexivity. Qed.
+Example ex9_sound : check_sound ex9_flat = true. Proof. vm_compute. reflexivity. Qed.
+Example ex9_inj : check_inj ex9_flat = true. Proof. vm_compute. reflexivity. Qed.
+Example ex9_complete : check_complete ex9_flat = true. Proof. vm_compute. reflexivity. Qed.
+Example ex9_acount : check_accepted_count ex9_flat = true. Proof. vm_compute. reflexivity. Qed.
